@@ -53,18 +53,20 @@ type c01Promotion struct {
 }
 
 type c01State struct {
-	tickMaster        map[string]string   // proc -> master key when its tick began
-	tickActive        map[string][]string // proc -> active list when its tick began
-	tickStmt          map[string]int      // proc -> statement log length when its tick began
-	promotions        []c01Promotion
-	semi              bool
-	wait              int
-	asyncLag          time.Duration
-	marked            map[string]bool // hosts marked for recovery (C11), refreshed at tick start
-	faultFree         bool
-	sawSplitBrain     bool
-	checkOptimisation bool
-	optStatus         string
+	tickMaster         map[string]string   // proc -> master key when its tick began
+	tickActive         map[string][]string // proc -> active list when its tick began
+	tickStmt           map[string]int      // proc -> statement log length when its tick began
+	promotions         []c01Promotion
+	semi               bool
+	wait               int
+	asyncLag           time.Duration
+	asyncRef           time.Time // the master's last repl_mon timestamp as recorded in the coordination service
+	asyncExceptionUsed bool
+	marked             map[string]bool // hosts marked for recovery (C11), refreshed at tick start
+	faultFree          bool
+	sawSplitBrain      bool
+	checkOptimisation  bool
+	optStatus          string
 	// snap: what each host held when the issuing tick froze it (proc -> host -> set). The
 	// promotion clause is evaluated against this and the current holdings, so that discarding
 	// a received transaction between freeze and promotion cannot hide it.
@@ -150,7 +152,18 @@ func (s *sim) installC01Monitor(cs *c01State) {
 			}
 		}
 		// the bound: members of the published list that are frozen now and hold nothing X has not executed
-		young := func(t vs.Txn) bool { return cs.asyncLag > 0 && st.At.Sub(t.At) < cs.asyncLag }
+		// async exception (automatic failover only): a target whose repl_mon row is less than
+		// async_allowed_lag (whole seconds, floored) behind the master's recorded one may be promoted
+		// without catching up. The exception is defined by that MEASURED lag, not by the age of
+		// what is missing (with a multi-threaded applier the row can be newer than a gap), so when
+		// it applies the containment clauses say nothing; when it does not, they apply in full.
+		if sw := s.currentSwitch(); cs.asyncLag > 0 && sw != nil && sw.Cause == CauseAuto && cs.asyncRef.Sub(x.ReplMonTS) < cs.asyncLag+time.Second {
+			// (judged by the request being executed at this instant: an automatic failover can also
+			// follow an operator request that was rejected after the master died)
+			cs.asyncExceptionUsed = true
+			return
+		}
+		young := func(t vs.Txn) bool { return false }
 		ex := x.Executed
 		contained := func(h *vs.MyHost) (bool, string) {
 			for _, t := range h.Binlog {
@@ -168,7 +181,7 @@ func (s *sim) installC01Monitor(cs *c01State) {
 					}
 				}
 			}
-			if sn, ok := cs.snap[st.Issuer][h.Name]; ok && cs.asyncLag == 0 {
+			if sn, ok := cs.snap[st.Issuer][h.Name]; ok {
 				if d := vs.RefMinus(sn, ex); !vs.RefEmpty(d) {
 					return false, fmt.Sprintf("%s which %s held when it was frozen (since discarded)", strings.TrimSpace(d.String()), h.Name)
 				}
@@ -301,7 +314,7 @@ type c01Replica struct {
 // TestVerifC01: promotion only of a caught-up node backed by a frozen quorum.
 func TestVerifC01(t *testing.T) {
 	stt := vs.NewStats(t, "C01")
-	stt.Rule = "warm clusters of 2-5 HA hosts (+0-1 cascade), semi-sync (wait count 1-3) or plain async, both adjustment orders, force_switchover on/off, MySQL 5.7/8.0 dialect; GTID history built by construction: master log of 6-30 transactions over 2 source UUIDs, per replica an applied prefix, optional gap (multi-threaded applier), received-but-unapplied tail, optional errant transaction (own or foreign UUID), apply delay 0/4s/40s/20min; published active list consistent or stale (extra dead member / missing member); request: --to, --from, automatic (master crashed or isolated, filed by the real failure detection), operator --failover, worker-style request without master_transition; up to 3 injected faults (statement class x target x {1205,1040,1105,hang,cut-before,cut-after}), optional server crash at the k-th call of the manager, optional ZooKeeper request fault; the request is processed by real manager ticks; oracle at the instant 'SET GLOBAL read_only = 0' reaches a host other than the recorded master: quorum of the published list frozen and contained (ground truth), promoted host covers every member frozen in that tick; fault-free generated split brain => no promotion and emergency file; non-trivial = a promotion with tail/gap/fault/catch-up/stale list, or a generated split brain"
+	stt.Rule = "warm clusters of 2-5 HA hosts (+0-1 cascade), semi-sync (wait count 1-3) or plain async (optionally with repl_mon and async_allowed_lag 20s/10min: then, and only for automatic failover, a target whose measured repl_mon lag is below the allowed lag is exempt from the containment clauses), both adjustment orders, force_switchover on/off, MySQL 5.7/8.0 dialect; GTID history built by construction: master log of 6-30 transactions over 2 source UUIDs, per replica an applied prefix, optional gap (multi-threaded applier), received-but-unapplied tail, optional errant transaction (own or foreign UUID), apply delay 0/4s/40s/20min; published active list consistent or stale (extra dead member / missing member); request: --to, --from, automatic (master crashed or isolated, filed by the real failure detection), operator --failover, worker-style request without master_transition; up to 3 injected faults (statement class x target x {1205,1040,1105,hang,cut-before,cut-after}), optional server crash at the k-th call of the manager, optional ZooKeeper request fault; the request is processed by real manager ticks; oracle at the instant 'SET GLOBAL read_only = 0' reaches a host other than the recorded master: quorum of the published list frozen and contained (ground truth), promoted host covers every member frozen in that tick; fault-free generated split brain => no promotion and emergency file; non-trivial = a promotion with tail/gap/fault/catch-up/stale list, or a generated split brain"
 	stt.Assumptions = simAssumptions
 	stt.Check(t, vs.CheckOpts{Bubble: true}, func(c *vs.Case) {
 		n := c.Src.Int("ha_hosts", 2, 5)
@@ -312,6 +325,8 @@ func TestVerifC01(t *testing.T) {
 		if c.Src.Int("dialect57", 0, 3) == 0 {
 			ver = [3]int{5, 7, 40}
 		}
+		asyncExc := !semi && c.Src.Int("async_allowed_lag_exception", 0, 2) == 0
+		asyncL := []time.Duration{20 * time.Second, 10 * time.Minute}[c.Src.Int("async_allowed_lag", 0, 1)]
 		o := simOpts{HA: ha, Ver: ver, LogLevel: simLogLevel(), Cfg: map[string]string{
 			"semi_sync": fmt.Sprint(semi), "rpl_semi_sync_master_wait_for_slave_count": fmt.Sprint(wait),
 			"master_first_adjust_ss_order": fmt.Sprint(c.Src.Bool("master_first_order")),
@@ -319,6 +334,9 @@ func TestVerifC01(t *testing.T) {
 			"failover":                     "true", "failover_delay": "0s", "inactivation_delay": "5s",
 			"slave_catch_up_timeout": c.Src.Pick("catch_up_timeout", "30m", "30s"),
 		}}
+		if asyncExc {
+			o.Cfg["async"], o.Cfg["async_allowed_lag"], o.Cfg["repl_mon"] = "true", asyncL.String(), "true"
+		}
 		if c.Src.Int("cascade", 0, 4) == 0 {
 			o.Cascade = map[string]string{"c1": ha[c.Src.Int("cascade_source", 0, n-1)]}
 		}
@@ -415,12 +433,35 @@ func TestVerifC01(t *testing.T) {
 			}
 		}
 		s.makeWarm(master, active, semi, wait)
+		var replMonRef time.Time
+		if asyncExc {
+			// the replicated heartbeat table: every server's row is as old as its newest applied transaction
+			s.w.Lock()
+			for _, hn := range s.hostNames() {
+				h := s.w.Hosts[hn]
+				h.HasReplMon = true
+				h.ReplMonTS = now.Add(-time.Hour)
+				for _, t := range h.Binlog {
+					if h.Executed.Has(vs.RefKey(t.UUID, ""), t.Gno) && t.At.After(h.ReplMonTS) {
+						h.ReplMonTS = t.At
+					}
+				}
+			}
+			replMonRef = s.w.Hosts[master].ReplMonTS
+			s.w.Unlock()
+			b, _ := json.Marshal(fmt.Sprintf("%.3f", float64(replMonRef.UnixMilli())/1000))
+			s.zk.RawSet(simNS+"/"+pathMasterReplMonTS, b)
+			c.Class("async-allowed-lag-configured")
+		}
 
 		// ---- request
 		kind := c.Src.Pick("request", "to", "from", "auto-crash", "auto-isolate", "operator-failover", "worker")
 		c.Class("request:" + kind)
 		target := ha[1+c.Src.Int("target", 0, n-2)]
 		cs := &c01State{tickMaster: map[string]string{}, tickActive: map[string][]string{}, tickStmt: map[string]int{}, semi: semi, wait: wait}
+		if asyncExc {
+			cs.asyncLag, cs.asyncRef = asyncL, replMonRef
+		}
 		s.installC01Monitor(cs)
 		switch kind {
 		case "auto-crash":
